@@ -206,6 +206,7 @@ func C08(c *Ctx) {
 
 	c08Guards(c)
 	c08Order(c)
+	c08Enumerations(c)
 	c08Crew(c)
 	c08Step(c)
 	c08Mcrew(c)
@@ -1016,4 +1017,86 @@ func emittedSendSites(fns []*ssa.Function) []sendSite {
 		})
 	}
 	return out
+}
+
+// c08Enumerations (C08-R4): a counted loop over an ordered record (Walked.Strides, Events.Emitted,
+// Traces.Messages) in core or the hosts visits all of it: the counter starts at 0 and is tested with `<` against
+// the plain length of the record — not a length that has been reduced (the last stride of a walk that ended at its
+// limit or at a breakpoint is a step that was taken, and its messages are part of the output).
+func c08Enumerations(c *Ctx) {
+	isRecord := func(v ssa.Value) string {
+		for _, of := range [][2]string{{"Events", "Emitted"}, {"Traces", "Messages"}, {"Walked", "Strides"}} {
+			if _, is := ssau.LoadOfField(v, prog.Abs("core"), of[0], of[1]); is {
+				return of[0] + "." + of[1]
+			}
+			// a field of a struct value held in a variable (value receiver): w.Strides with w spilled
+			if f, isF := v.(*ssa.Field); isF {
+				if n, ok := f.X.Type().(*types.Named); ok && n.Obj().Name() == of[0] && n.Obj().Pkg() != nil && n.Obj().Pkg().Path() == prog.Abs("core") {
+					if st, isSt := n.Underlying().(*types.Struct); isSt && st.Field(f.Field).Name() == of[1] {
+						return of[0] + "." + of[1]
+					}
+				}
+			}
+		}
+		return ""
+	}
+	lenOfRecord := func(v ssa.Value) string {
+		cl, ok := v.(*ssa.Call)
+		if !ok {
+			return ""
+		}
+		if b, isB := cl.Common().Value.(*ssa.Builtin); !isB || b.Name() != "len" {
+			return ""
+		}
+		return isRecord(cl.Common().Args[0])
+	}
+	// does v derive from len(record) by arithmetic?
+	var derived func(v ssa.Value, depth int) string
+	derived = func(v ssa.Value, depth int) string {
+		if depth > 3 {
+			return ""
+		}
+		if r := lenOfRecord(v); r != "" {
+			return r
+		}
+		if bo, ok := v.(*ssa.BinOp); ok {
+			if r := derived(bo.X, depth+1); r != "" {
+				return r
+			}
+			return derived(bo.Y, depth+1)
+		}
+		return ""
+	}
+	n := 0
+	for _, f := range c.P.FuncsIn("core", "sio", "cmd/mcrew", "cmd/msimple", "cmd/sheensio", "interpreters/ecmascript") {
+		for _, l := range flow.Loops(f) {
+			iff, ok := l.Header.Instrs[len(l.Header.Instrs)-1].(*ssa.If)
+			if !ok {
+				continue
+			}
+			bo, ok := iff.Cond.(*ssa.BinOp)
+			if !ok {
+				continue
+			}
+			rec := derived(bo.Y, 0)
+			if rec == "" {
+				continue
+			}
+			ph, isPhi := bo.X.(*ssa.Phi)
+			if !isPhi || ph.Block() != l.Header {
+				continue
+			}
+			n++
+			okBound := bo.Op == token.LSS && lenOfRecord(bo.Y) != ""
+			okStart := false
+			out, _ := splitPhi(l, ph)
+			if len(out) == 1 {
+				if k, isC := ssau.ConstInt(out[0]); isC && k == 0 {
+					okStart = true
+				}
+			}
+			c.R.Check(okBound && okStart, "C08-R4", fmt.Sprintf("%s: counted loop over %s #%d visits every element", fname(f), rec, n), c.pos(iff), "from 0 while i < len("+rec+")", "a loop over "+rec+" does not visit all of it (it starts late or stops short of the length): the messages of a stride that was taken — the last one of a walk that ended at its limit or a breakpoint — are dropped from what is reported")
+		}
+	}
+	c.R.Extra["counted_loops_over_ordered_records"] = n
 }
